@@ -87,7 +87,7 @@ def _shift(ck, name, D, N, C, pins, make, shifts, band=None):
         enc2 = enc.clone_with(ins[:-1] + [In("uh", uh.shape, "complex", sym_arr=shift_spectrum(uh, D, N, s))], tag="ss")
         want_ = shift_spectrum(enc.outs[0], D, N, s)
         for i in np.ndindex(want_.shape):
-            ck.add(f"{tag}/{'_'.join(map(str, i))}", sym.equal_goal(enc2.outs[0][i], want_[i]), [L > 0], family=f"shift equivariance/{name}", timeout=120 if D < 3 else 300,
+            ck.add(f"{tag}/{'_'.join(map(str, i))}", sym.equal_goal(enc2.outs[0][i], want_[i]), [L > 0], family=f"shift equivariance/{name}", timeout=120 if D < 3 else 150,
                    replay=_shift_replay(name, D, N, make, s, len(pins)))
     # twin: a shifted input does not give the unshifted output (component chosen where the output is numerically non-zero)
     import random
